@@ -48,8 +48,57 @@ impl FInput {
     pub fn scale(&self) -> f64 {
         (0..self.dim).map(|k| self.width[k]).fold(0.0, f64::max)
     }
+    /// Smallest distance between two generators (active subspace, nearest periodic image) relative to the box scale.
+    pub fn min_sep_rel(&self) -> f64 {
+        let mut m = f64::INFINITY;
+        for i in 0..self.gens.len() {
+            for j in 0..i {
+                let mut d2 = 0.0;
+                for k in 0..self.dim {
+                    let mut d = (self.gens[i][k] - self.gens[j][k]).abs();
+                    if self.per {
+                        d = d.min((d - self.width[k]).abs());
+                    }
+                    d2 += d * d;
+                }
+                m = m.min(d2.sqrt());
+            }
+        }
+        m / self.scale()
+    }
+    /// Smallest distance from a generator to its SECOND nearest neighbour, relative to the box scale (three generators
+    /// mutually that close: their bisectors with a distant generator are almost parallel three by three).
+    pub fn tri_sep_rel(&self) -> f64 {
+        let n = self.gens.len();
+        let mut m = f64::INFINITY;
+        for i in 0..n {
+            let (mut a, mut b) = (f64::INFINITY, f64::INFINITY);
+            for j in 0..n {
+                if i == j {
+                    continue;
+                }
+                let mut d2 = 0.0;
+                for k in 0..self.dim {
+                    let mut d = (self.gens[i][k] - self.gens[j][k]).abs();
+                    if self.per {
+                        d = d.min((d - self.width[k]).abs());
+                    }
+                    d2 += d * d;
+                }
+                let d = d2.sqrt();
+                if d < a {
+                    b = a;
+                    a = d;
+                } else if d < b {
+                    b = d;
+                }
+            }
+            m = m.min(b);
+        }
+        m / self.scale()
+    }
     pub fn to_json(&self) -> Value {
-        json!({"id": self.id, "kind": self.kind, "dim": self.dim, "per": self.per,
+        json!({"id": self.id, "kind": self.kind, "dim": self.dim, "per": self.per, "minsep": self.min_sep_rel().min(1e300), "trisep": self.tri_sep_rel().min(1e300),
                "anchor": self.anchor.to_array(), "width": self.width.to_array(),
                "gens": self.gens.iter().map(|g| g.to_array()).collect::<Vec<_>>()})
     }
@@ -60,7 +109,7 @@ impl FInput {
 pub fn float_inputs(seed: u64, count: usize, nmax: usize, dims: &[usize]) -> Vec<FInput> {
     let mut rng = StdRng::seed_from_u64(seed.wrapping_mul(0x9E3779B97F4A7C15) ^ 0xF00D);
     let mut out = vec![];
-    let kinds = ["uniform", "cluster", "nearlattice", "lattice", "tiny", "aniso", "offset", "shell", "aniso", "ring", "onwall", "micro", "mega"];
+    let kinds = ["uniform", "cluster", "nearlattice", "lattice", "tiny", "aniso", "offset", "shell", "aniso", "ring", "onwall", "micro", "mega", "pairs", "fcc", "bcc"];
     let mut aniso_round = 0usize;
     let mut k = 0;
     while out.len() < count {
@@ -98,7 +147,7 @@ pub fn float_inputs(seed: u64, count: usize, nmax: usize, dims: &[usize]) -> Vec
             }
             _ => {}
         }
-        let dim = if kind == "aniso" || kind == "shell" || kind == "ring" { if kind == "ring" && rng.gen_bool(0.3) { 2 } else { 3 } } else { dim };
+        let dim = if kind == "fcc" || kind == "bcc" { 3 } else if kind == "aniso" || kind == "shell" || kind == "ring" { if kind == "ring" && rng.gen_bool(0.3) { 2 } else { 3 } } else { dim };
         let n = match kind {
             "tiny" => rng.gen_range(1..=4),
             _ => rng.gen_range(2..=nmax),
@@ -107,11 +156,51 @@ pub fn float_inputs(seed: u64, count: usize, nmax: usize, dims: &[usize]) -> Vec
         match kind {
             "cluster" => {
                 let c = DVec3::new(rng.gen_range(0.2..0.8), rng.gen_range(0.2..0.8), rng.gen_range(0.2..0.8));
-                let r = 10f64.powf(rng.gen_range(-4.0..-1.0));
+                let r = 10f64.powf(rng.gen_range(-3.3..-1.0));
                 for i in 0..n {
                     let u = DVec3::new(rng.gen_range(0.0..1.0), rng.gen_range(0.0..1.0), rng.gen_range(0.0..1.0));
                     let p = if i < (2 * n) / 3 { c + r * (u - 0.5) } else { u };
                     gens.push(anchor + p * width);
+                }
+            }
+            "pairs" => {
+                // uniform points, some of them with a partner at a relative distance of 1e-10 .. 1e-5 of the box: two
+                // almost parallel bisectors in every third cell that neighbours both
+                for _ in 0..n {
+                    let u = DVec3::new(rng.gen_range(0.05..0.95), rng.gen_range(0.05..0.95), rng.gen_range(0.05..0.95));
+                    gens.push(anchor + u * width);
+                }
+                let m = rng.gen_range(1..=3.min(n));
+                for k in 0..m {
+                    let d = DVec3::new(rng.gen_range(-1.0..1.0), rng.gen_range(-1.0..1.0), rng.gen_range(-1.0..1.0)).normalize_or_zero();
+                    let sep = 10f64.powf(rng.gen_range(-6.5..-5.0));
+                    let q = gens[k] + d * sep * width;
+                    gens.push(q);
+                }
+            }
+            "fcc" | "bcc" => {
+                // face-centred / body-centred cubic lattices on a dyadic grid in the power-of-two box [0,4]^3 (snapping is
+                // exact, ties are decided on true coordinates): cells are rhombic dodecahedra / truncated octahedra, with
+                // vertices where four or more faces meet - represented as coincident vertices and zero-length edges
+                anchor = DVec3::ZERO;
+                width = DVec3::splat(4.0);
+                per = false;
+                let m: i32 = if kind == "fcc" { 4 } else if nmax > 30 { 4 } else { 2 }; // 2m must be a power of two (dyadic coordinates)
+                for a in 0..(2 * m) {
+                    for b in 0..(2 * m) {
+                        for c in 0..(2 * m) {
+                            let keep = if kind == "fcc" {
+                                a % 2 == 0 && b % 2 == 0 && c % 2 == 0 && ((a + b + c) / 2) % 2 == 0 || false
+                            } else {
+                                (a % 2 == b % 2) && (b % 2 == c % 2)
+                            };
+                            if !keep || (dim < 3 && c != 0) || (dim < 2 && b != 0) {
+                                continue;
+                            }
+                            let q = 4.0 / (2 * m) as f64;
+                            gens.push(DVec3::new((a as f64 + 0.5) * q, (b as f64 + 0.5) * q, (c as f64 + 0.5) * q));
+                        }
+                    }
                 }
             }
             "onwall" => {
@@ -712,6 +801,7 @@ pub fn main_tess(args: &[String]) -> i32 {
     let mut count = 30usize;
     let mut nmax = 24usize;
     let mut inputs_path: Option<String> = None;
+    let mut closepairs = 0usize;
     let mut i = 0;
     while i < args.len() {
         match args[i].as_str() {
@@ -721,16 +811,43 @@ pub fn main_tess(args: &[String]) -> i32 {
             "--seed" => { seed = args[i + 1].parse().unwrap(); i += 1 }
             "--count" => { count = args[i + 1].parse().unwrap(); i += 1 }
             "--nmax" => { nmax = args[i + 1].parse().unwrap(); i += 1 }
+            "--closepairs" => { closepairs = args[i + 1].parse().unwrap(); i += 1 }
             "--inputs" => { inputs_path = Some(args[i + 1].clone()); i += 1 }
             _ => {}
         }
         i += 1;
     }
     install_quiet_panic_hook();
-    let inputs = match inputs_path {
+    let mut inputs = match inputs_path {
         Some(p) => read_inputs(&p),
         None => float_inputs(seed, count, nmax, &[1, 2, 3, 3]),
     };
+    // C05 only: generators closer than 1e-8 of the box (known finding F11: the builder is not robust there)
+    {
+        let mut r2 = StdRng::seed_from_u64(seed ^ 0xC105E);
+        for k in 0..closepairs {
+            let n = r2.gen_range(6..=16);
+            let dim = if k % 3 == 2 { 2 } else { 3 };
+            let mut gens: Vec<DVec3> = (0..n).map(|_| DVec3::new(r2.gen_range(0.05..0.95), r2.gen_range(0.05..0.95), r2.gen_range(0.05..0.95))).collect();
+            for j in 0..2 {
+                let d = DVec3::new(r2.gen_range(-1.0..1.0), r2.gen_range(-1.0..1.0), if dim == 3 { r2.gen_range(-1.0..1.0) } else { 0.0 }).normalize_or_zero();
+                gens.push(gens[j] + d * 10f64.powf(r2.gen_range(-12.0..-8.5)));
+            }
+            let id = inputs.len();
+            if k % 2 == 1 {
+                // a tight cluster instead: two thirds of the points in a cube of side 1e-9 .. 1e-5
+                let c = DVec3::new(r2.gen_range(0.2..0.8), r2.gen_range(0.2..0.8), r2.gen_range(0.2..0.8));
+                let r = 10f64.powf(r2.gen_range(-9.0..-5.0));
+                let m = gens.len();
+                for (i, g) in gens.iter_mut().enumerate() {
+                    if i < 2 * m / 3 {
+                        *g = c + r * (*g - DVec3::splat(0.5));
+                    }
+                }
+            }
+            inputs.push(FInput { id, kind: "closepairs".into(), gens, anchor: DVec3::ZERO, width: DVec3::ONE, dim, per: k % 4 < 2 });
+        }
+    }
     let mut rng = StdRng::seed_from_u64(seed ^ 0xABCDEF);
     let mut f = std::io::BufWriter::new(std::fs::File::create(&trace_path).unwrap());
     let mut failures: Vec<Value> = vec![];
@@ -764,7 +881,8 @@ pub fn main_tess(args: &[String]) -> i32 {
             }
         }
     }
-    let result = json!({"stats": {"inputs": inputs.len(), "lines": lines, "masks": masks_total, "cells": cells_total, "panics": panics.len()},
+    let meta: Vec<Value> = inputs.iter().map(|x| json!({"id": x.id, "kind": x.kind, "minsep": x.min_sep_rel().min(1e300), "trisep": x.tri_sep_rel().min(1e300)})).collect();
+    let result = json!({"inputs_meta": meta, "stats": {"inputs": inputs.len(), "lines": lines, "masks": masks_total, "cells": cells_total, "panics": panics.len()},
                         "failures": failures, "panics": panics, "samples": samples});
     std::fs::write(&out_path, serde_json::to_string(&result).unwrap()).unwrap();
     0
